@@ -12,7 +12,7 @@ def sh(cmd, cwd=None):
 
 
 def main():
-    names = sys.argv[1:] or sorted(os.path.basename(d) for d in glob.glob(os.path.join(VERIF, 'seeded', '*')))
+    names = sys.argv[1:] or sorted(os.path.basename(d) for d in glob.glob(os.path.join(VERIF, 'seeded', '*')) if os.path.isdir(d))
     sh('git -C /repo worktree remove --force %s' % WT)
     rc, out = sh('git -C /repo worktree add --detach %s HEAD' % WT)
     assert rc == 0, out
